@@ -1,8 +1,8 @@
-from textwrap import indent
 
 from pydbml.classes import Note
 from pydbml.renderer.dbml.default.renderer import DefaultDBMLRenderer
 from pydbml.renderer.dbml.default.utils import quote_string
+from pydbml.tools import indent_lines as indent
 
 
 @DefaultDBMLRenderer.renderer_for(Note)
